@@ -209,6 +209,9 @@ func (fx *FnCtx) noteHeapSymbol(h *Term, name string, leaf Leaf) {
 		// references and array ids held in memory at function entry denote objects that existed then
 		if strings.HasPrefix(h.Name, "H0_") {
 			switch leaf.Kind {
+			case "off":
+				// entry slices start at element 0 of their abstract arrays (see Load)
+				body = Eq(cur, tc.IdxNum(0))
 			case "id":
 				body = And(body, tc.IdxLt(cur, fx.root.entryNAlloc))
 			case "ref":
@@ -267,9 +270,28 @@ func (fx *FnCtx) Load(st *State, p *PtrInfo) Value {
 				fx.root.noteOnce("assumed: slices stored in memory at function entry start at element 0 of distinct abstract arrays (no partial overlap)")
 			} else {
 				t = Select(h, p.Ref)
+				if lf.Kind == "off" && lf.Sort.Kind != SArray && !p.Ref.hasBnd {
+					// the same assumption when the heap has been written since entry: the entry value
+					// at this reference is 0 (ground instance)
+					name := objHeapName(p.Root, lf)
+					h0 := fx.initialHeap(name, fx.tc.heapSort(name, lf), lf)
+					fx.assume(Eq(Select(h0, p.Ref), fx.tc.IdxNum(0)))
+				}
 			}
 		case PElem:
-			h := fx.Heap(st, arrHeapName(p.Root, lf), lf)
+			name := arrHeapName(p.Root, lf)
+			h := fx.Heap(st, name, lf)
+			if lf.Kind == "off" && lf.Sort.Kind != SArray && p.Idx != nil {
+				if h.Op == "sym" && strings.HasPrefix(h.Name, "H0_") {
+					t = fx.tc.IdxNum(0)
+					fx.root.noteOnce("assumed: slices stored in memory at function entry start at element 0 of distinct abstract arrays (no partial overlap)")
+					break
+				}
+				if !p.Arr.hasBnd && !p.Idx.hasBnd {
+					h0 := fx.initialHeap(name, fx.tc.heapSort(name, lf), lf)
+					fx.assume(Eq(Select(Select(h0, p.Arr), p.Idx), fx.tc.IdxNum(0)))
+				}
+			}
 			t = Select(h, p.Arr)
 			if p.Idx != nil {
 				t = Select(t, p.Idx)
